@@ -165,6 +165,7 @@ static void run_spec(const RunSpec& spec) {
   }
   t0p->stack_lo = main_lo; t0p->stack_hi = main_hi;
   G.nth = 1;
+  g_vc_n = 1;
   G.cur = t0p;
   self = t0p;
   G.active = true;
